@@ -949,3 +949,129 @@ func RuleFDirectiveTypes(c *core.Ctx) {
 	cmp("model: ParseDirective vs journal printer", mod, "model.ParseDirective", switched(jprinter), "the journal printer", nil, jprinter)
 	c.Floor(rule, 4)
 }
+
+// RuleFWidthUnit — the text renderer measures and pads a text cell in one
+// unit: characters. Every use of textCell.Content in the table package is a
+// whole-string use (written, returned, boxed for fmt, stored in a cell) or a
+// character count (utf8.RuneCountInString, conversion to []rune, range); a
+// byte-wise use (len, copy, slicing, indexing, conversion to []byte) measures
+// or cuts a multi-byte account name in bytes while the column width is in
+// characters, and the row is no longer as wide as the others.
+func RuleFWidthUnit(c *core.Ctx) {
+	const rule = "F-width-unit"
+	p := c.P
+	content := p.Field(pkgTable, "textCell", "Content")
+	if content == nil {
+		c.Anchor(rule, "table.textCell.Content")
+		return
+	}
+	n, counted := 0, 0
+	for _, fn := range p.SrcFuncs() {
+		if core.PkgPathOf(fn) != pkgTable {
+			continue
+		}
+		core.EachInstr(fn, func(ins ssa.Instruction) {
+			var val ssa.Value
+			switch x := ins.(type) {
+			case *ssa.Field:
+				if fieldOfStruct(x.X.Type(), x.Field) == content {
+					val = x
+				}
+			case *ssa.UnOp:
+				if fa, ok := x.X.(*ssa.FieldAddr); ok && x.Op == token.MUL && core.FieldOf(fa) == content {
+					val = x
+				}
+			}
+			if val == nil || val.Referrers() == nil {
+				return
+			}
+			for _, r := range *val.Referrers() {
+				use, bad := "", false
+				switch u := r.(type) {
+				case *ssa.Call:
+					if b, ok := u.Call.Value.(*ssa.Builtin); ok {
+						use, bad = "builtin "+b.Name(), true
+					} else if callee := u.Call.StaticCallee(); callee != nil {
+						use = core.FuncName(callee)
+						if callee.Pkg != nil && callee.Pkg.Pkg.Path() == "unicode/utf8" && callee.Name() == "RuneCountInString" {
+							counted++
+						} else if callee.Pkg != nil && callee.Pkg.Pkg.Path() == "unicode/utf8" {
+							bad = true
+						}
+					} else {
+						use = "dynamic call"
+					}
+				case *ssa.Convert:
+					if sl, ok := u.Type().Underlying().(*types.Slice); ok {
+						if b, ok := sl.Elem().Underlying().(*types.Basic); ok && b.Kind() == types.Uint8 {
+							use, bad = "conversion to []byte", true
+						} else {
+							use = "conversion to []rune"
+						}
+					}
+				case *ssa.Slice:
+					use, bad = "slice expression", true
+				case *ssa.Index, *ssa.Lookup:
+					use, bad = "byte index", true
+				case *ssa.Range:
+					use = "range (characters)"
+				case *ssa.DebugRef:
+					continue
+				default:
+					use = fmt.Sprintf("%T", r)
+				}
+				n++
+				key := fmt.Sprintf("%s:use of textCell.Content by %s", core.FuncName(fn), use)
+				if bad {
+					c.Ob(rule, key, r.Pos(), core.FuncName(fn), core.Violated, "the content of a text cell is used byte-wise ("+use+"), but column widths and padding are counted in characters: a row with a multi-byte account name gets a different width or a cut name")
+				} else {
+					c.Ob(rule, key, r.Pos(), core.FuncName(fn), core.Discharged, "whole-string or character-count use")
+				}
+			}
+		})
+	}
+	// the width site and the padding site both count characters
+	for _, name := range []string{"minLengthCell", "renderCell"} {
+		fn := p.Func(pkgTable, "TextRenderer."+name)
+		key := "TextRenderer." + name + ":counts characters of the content"
+		if fn == nil {
+			c.Anchor(rule, "table.TextRenderer."+name)
+			continue
+		}
+		has := false
+		core.EachInstr(fn, func(ins ssa.Instruction) {
+			if call, ok := ins.(*ssa.Call); ok {
+				if callee := call.Call.StaticCallee(); callee != nil && callee.Pkg != nil && callee.Pkg.Pkg.Path() == "unicode/utf8" && callee.Name() == "RuneCountInString" {
+					for _, a := range call.Call.Args {
+						if ld, ok := a.(*ssa.Field); ok && fieldOfStruct(ld.X.Type(), ld.Field) == content {
+							has = true
+						}
+						if ld, ok := a.(*ssa.UnOp); ok {
+							if fa, ok := ld.X.(*ssa.FieldAddr); ok && core.FieldOf(fa) == content {
+								has = true
+							}
+						}
+					}
+				}
+			}
+		})
+		n++
+		if has {
+			c.Ob(rule, key, fn.Pos(), core.FuncName(fn), core.Discharged, "utf8.RuneCountInString(textCell.Content)")
+		} else {
+			c.Ob(rule, key, fn.Pos(), core.FuncName(fn), core.Violated, "this site does not count the characters of a text cell's content, the other one does: width and padding disagree for multi-byte names")
+		}
+	}
+	_ = counted
+	c.Floor(rule, 6)
+}
+
+func fieldOfStruct(t types.Type, i int) *types.Var {
+	if ptr, ok := t.Underlying().(*types.Pointer); ok {
+		t = ptr.Elem()
+	}
+	if st, ok := t.Underlying().(*types.Struct); ok && i < st.NumFields() {
+		return st.Field(i)
+	}
+	return nil
+}
